@@ -2234,7 +2234,7 @@ MANIFEST = {
     "engine": "planners",
     "category": "proof",
     "design_ref": "DESIGN.md 2.1",
-    "text": "Lean 4 theorems (44): (L0) the reporting layer shared by all planners (status truth table, PlannerInputStates "
+    "text": "Lean 4 theorems (46): (L0) the reporting layer shared by all planners (status truth table, PlannerInputStates "
             "nextStart/nextGoal filter and counters, PathGeometric::check, addSolutionPath bookkeeping); (L1) planners as oracle "
             "machines (run_congr, unasked_flip, undisciplined_refutable: unqueried stretches cannot be vouched for; "
             "checked_points_valid / discipline_sound: queried-valid points are valid and dense valid queries bound every invalid "
@@ -2250,7 +2250,7 @@ MANIFEST = {
             "tree planners; (L2h, round 10) histories of ONE RRT object and problem definition (Model/RRTHistory.lean: solve on a kept tree, clear, "
             "addStartState, setRange, setThreshold, setIntermediateStates, setup, clearSolutionPaths): rrt_history_step / rrt_history_real - "
             "for EVERY finite sequence of calls every solve reports truthfully and every solution the problem definition holds is real, "
-            "rrt_history_first_call, hasApproximate_iff_all (the flag of a problem definition with several solutions); (L0g) GoalStates "
+            "rrt_history_first_call, the same for one RRTConnect object (Model/RRTConnectHistory.lean: rrtconnect_history_first_call, rrtconnect_history_real, incl. the goal object's own sample position across clear()), hasApproximate_iff_all (the flag of a problem definition with several solutions); (L0g) GoalStates "
             "(goalstates_sampling, goalstates_distance, rrtconnect_goalstates_real, lazyprm_goalstates_real); rrt_unfiltered_goal_draw_fails "
             "(finding F310: a direct sampleGoal bypasses the bounds filter); the three models are tied to the C++ by bit-exact "
             "lock-step replay of recorded sampler/goal draws (trees, path, status, flags). Trace conformance: all 41 shipped "
